@@ -54,8 +54,6 @@ def solver_part(tier):
         if d["requeue"] != "extend":
             # not a shape problem: report through the real-parser harness (which executes whatever is there)
             pass
-    if T["driver"].get("read") != "popleft":
-        herr.append("read_token does not pop from the left of the queue")
     val = _p.validate_translation(T)
     if val.get("error") or val.get("disagreements", 1) != 0:
         herr.append("translation validation failed: %r" % (val,))
@@ -69,7 +67,9 @@ def conditions(tier):
         cs = _p.pdrv_conditions(select="tags", k_tags=2, k_tags_rest=1, tag_stride=5, stop_too=True)
     else:
         cs = _p.pdrv_conditions(select="tags", k_tags=3, stop_too=True) + _p.pdrv_conditions(k_all=2, k_tags=0, stop_too=False)
+    cs += _p.reuse_conditions(k=1, stride=6 if tier == "quick" else 1)
     cs.append(Cond("harness.c18", "format_token", T=300))
     cs.append(Cond("harness.c18", "scanner_numbers_lines", T=300))
+    cs.append(Cond("harness.c18", "scan_text", {"maxlen": 4 if tier == "quick" else 6}, T=600, reach=["two-lines"]))
     cs.append(Cond("harness.c18", "twin_format", T=60, expect="cex"))
     return cs
